@@ -44,11 +44,11 @@ def main():
     items = []
     for tid, rty, tmpl in templates():
         for res in (0, 1, 4, 8, 12):
-            items.append(dict(tid=tid, res=res, n=(25 if tier == "quick" else 600)))
+            items.append(dict(tid=tid, res=res, n=(100 if tier == "quick" else 1500)))
     common.rng(PROP, "plan").shuffle(items)
-    nshards = 8 if tier == "quick" else 32
+    nshards = 16 if tier == "quick" else 32
     jobs = [dict(kind="ops", seed="%d/%s/%d" % (common.seed(), PROP, s), items=items[s::nshards]) for s in range(nshards)]
-    nprog = (4, 40) if tier == "quick" else (16, 500)
+    nprog = (8, 120) if tier == "quick" else (16, 1200)
     for s in range(nprog[0]):
         jobs.append(dict(kind="prog", seed="%d/%s/p%d" % (common.seed(), PROP, s), nprogs=nprog[1], props=[PROP], maxstmts=10,
                          force_fxp=True))
